@@ -86,6 +86,11 @@ def one_case(rng, quick):
     import filelock
     k = rng.choice((2, 2, 3, 4))
     fmt = rng.choice(("npy", "fits", "npy"))
+    # colour tiles updated from RGB and RGBA sources alike (both use the RGBA buffer): updaters of one
+    # tile must exclude each other whatever the mode of their own image
+    colour = rng.random() < 0.25
+    if colour:
+        fmt = rng.choice(("npy", "png"))
     mixed_format_arg = rng.random() < 0.3
     present = rng.random() < 0.5
     overlap = rng.random() < 0.4
@@ -97,7 +102,12 @@ def one_case(rng, quick):
     init = np.full((256, 256), np.nan, dtype=dtype)
     if present:
         init[0:8, 0:8] = 7.0
-        pio.write_image(pos, Image.from_array(init.copy()), format=fmt)
+        if colour:
+            rgba = np.zeros((256, 256, 4), dtype=np.uint8)
+            rgba[0:8, 0:8] = (7, 7, 7, 255)
+            pio.write_image(pos, Image.from_array(rgba), format=fmt)
+        else:
+            pio.write_image(pos, Image.from_array(init.copy()), format=fmt)
     # updater u writes value 100+u into its rectangle
     rects = []
     for u in range(k):
@@ -109,7 +119,7 @@ def one_case(rng, quick):
         rects.append((y0, x0, h, w))
     # prelude (sometimes): the same PyramidIO object first serves a serial multi-TAN tiling
     # of another tile; whatever state that leaves on the object must not weaken later updates
-    prelude = rng.random() < 0.4
+    prelude = rng.random() < 0.4 and not colour
     if prelude:
         from toasty.multi_tan import MultiTanProcessor
         from toasty.study import StudyTiling
@@ -232,7 +242,12 @@ def one_case(rng, quick):
 
         def updater(u):
             y0, x0, h, w = rects[u]
-            src = np.full((h, w), 100.0 + u, dtype=dtype)
+            if colour:
+                src = np.full((h, w, 3 if u % 2 == 0 else 4), 100 + u, dtype=np.uint8)
+                if u % 2:
+                    src[..., 3] = 255
+            else:
+                src = np.full((h, w), 100.0 + u, dtype=dtype)
             img = Image.from_array(src)
             kw = dict(masked_mode=img.mode, default="masked")
             if mixed_format_arg and u % 2 == 0:
@@ -283,6 +298,9 @@ def one_case(rng, quick):
     # final pixels
     final = orig_read(pio, pos, default="none", format=fmt)
     final_arr = None if final is None else np.array(final.asarray(), dtype=np.float64)
+    if colour and final_arr is not None:
+        a = final_arr
+        final_arr = np.where(a[..., 3] > 0, a[..., 0], np.nan) if a.ndim == 3 and a.shape[2] == 4 else a[..., 0]
     expect = np.array(init, dtype=np.float64)
     for u in order:
         y0, x0, h, w = rects[u]
@@ -301,7 +319,7 @@ def one_case(rng, quick):
     elif final_arr is None:
         contrib_ok = False
     locks_left = [f for _d, _s, fl in os.walk(base) for f in fl if f.endswith(".lock")]
-    return dict(k=k, fmt=fmt, present=present, overlap=overlap, mixed=mixed_format_arg, prelude=prelude, outcome=outcome,
+    return dict(k=k, fmt=fmt + ("/rgb+rgba" if colour else ""), present=present, overlap=overlap, mixed=mixed_format_arg, prelude=prelude, outcome=outcome,
                 trace=trace, order=order, errors=errors, pix_ok=pix_ok, contrib_ok=contrib_ok,
                 bounded_waits_expired=len(timeouts_raised), locks_left=locks_left, exits=[S.actors[f"W{u}"].exitcode for u in range(k)], mode=mode, rects=rects)
 
